@@ -354,7 +354,9 @@ type gen struct {
 	// statistics for the non-triviality rule
 	twins, tmplRefs, bigArrays int
 	upwards, weird             int
-	nsDoc                      bool // the XML document being generated uses prefixed element names
+	dynArrays                  int
+	pendingSib                 *GDecl // an array to be placed as a sibling member of the enclosing object
+	nsDoc                      bool   // the XML document being generated uses prefixed element names
 	recID                      string
 	tmplUse                    map[string]int
 	// guards (lifted once the corresponding fix: commits are in /repo)
@@ -494,7 +496,36 @@ type gctx struct {
 // dynamic xpath: computed from const / field / custom_func
 func (g *gen) xdyn(c gctx) *GDecl {
 	r := g.r
-	switch r.Pick(4) {
+	switch r.Pick(6) {
+	case 4, 5:
+		// computed from an ARRAY argument (its elements are declarations of their own below the
+		// xpath_dynamic); half of the time the textually equal array is also a member of the
+		// enclosing object, evaluated on the same node before (F28: double validation of the
+		// xpath_dynamic of a template reference doubled the elements unless the cache masked it)
+		arr := &GDecl{HasArray: true, Array: []*GDecl{{Const: sp(g.name())}, {Const: sp(g.name())}}}
+		if r.Chance(0.3) {
+			arr.Array = append(arr.Array, &GDecl{XPath: sp("@k")})
+		}
+		if r.Chance(0.5) {
+			g.pendingSib = arr
+		}
+		g.dynArrays++
+		if r.Chance(0.5) {
+			// the NUMBER of elements decides which name is selected: len(join("", [x, y])) = 2 picks
+			// names[2]; a doubled array picks names[4]
+			two := &GDecl{HasArray: true, Array: []*GDecl{{Const: sp("x")}, {Const: sp("y")}}}
+			if g.pendingSib != nil {
+				g.pendingSib = two
+			}
+			return &GDecl{Func: &GFunc{Name: "verif_pick", Args: []*GDecl{
+				{Func: &GFunc{Name: "verif_len", Args: []*GDecl{{Func: &GFunc{Name: "verif_join", Args: []*GDecl{{Const: sp("")}, two}}}}}},
+				{Const: sp("a")}, {Const: sp("b")}, {Const: sp(g.name())}, {Const: sp("c")}, {Const: sp(g.name())}}}}
+		}
+		inner := &GDecl{Func: &GFunc{Name: "verif_join", Args: []*GDecl{{Const: sp("/")}, arr}}}
+		if r.Chance(0.3) {
+			return &GDecl{Func: &GFunc{Name: "concat", Args: []*GDecl{inner, {Const: sp("")}}}}
+		}
+		return inner
 	case 0:
 		return &GDecl{Const: sp(g.xpath())}
 	case 1:
@@ -521,7 +552,7 @@ func (g *gen) anchor(d *GDecl, c gctx, pStatic, pDyn float64) {
 	}
 }
 
-var funcNames = []string{"concat", "coalesce", "lower", "upper", "verif_add", "verif_neg", "verif_not", "verif_echo",
+var funcNames = []string{"verif_join", "concat", "coalesce", "lower", "upper", "verif_add", "verif_neg", "verif_not", "verif_echo",
 	"verif_count", "verif_nonempty", "verif_text", "verif_len", "verif_pick"}
 
 func (g *gen) arg(c gctx, want string) *GDecl {
@@ -539,6 +570,8 @@ func (g *gen) arg(c gctx, want string) *GDecl {
 			return &GDecl{Const: sp(r.PickStr("1.5", "-0.25", "3", "12.75")), Type: sp("float")}
 		case "bool":
 			return &GDecl{Const: sp(r.PickStr("true", "false", "T", "0")), Type: sp("boolean")}
+		case "strarray":
+			return &GDecl{HasArray: true, Array: []*GDecl{{Const: sp(g.name())}, {XPath: sp(g.xpath())}}, Keep: r.Chance(0.2)}
 		case "string":
 			if r.Chance(0.5) {
 				return &GDecl{XPath: sp(g.xpath()), NoTrim: r.Chance(0.3), Keep: r.Chance(0.2)}
@@ -574,6 +607,11 @@ func (g *gen) fn(c gctx) *GDecl {
 			wants = append(wants, "any")
 		}
 	case "verif_text":
+	case "verif_join":
+		wants = []string{"string"}
+		for i := r.Between(0, 3); i > 0; i-- {
+			wants = append(wants, r.PickStr("string", "strarray"))
+		}
 	case "verif_pick":
 		wants = []string{"int"}
 		for i := r.Between(0, 3); i > 0; i-- {
@@ -639,7 +677,7 @@ func (g *gen) decl(c gctx) *GDecl {
 		}
 		d := &GDecl{Template: sp(t)}
 		if !g.tmplXPath[t] && (k == "field" || k == "object" || k == "func" || r.Chance(0.1)) {
-			g.anchor(d, c, 0.35, 0.05)
+			g.anchor(d, c, 0.3, 0.25)
 		}
 		g.tmplRefs++
 		g.tmplUse[t]++
@@ -724,6 +762,14 @@ func (g *gen) object(c gctx) *GDecl {
 		used[k] = true
 		d.Object = append(d.Object, KV{k, g.decl(cc)})
 	}
+	if g.pendingSib != nil {
+		// sorts before the ordinary keys, so it is evaluated (and cached) first
+		if !used["0sib"] {
+			used["0sib"] = true
+			d.Object = append(d.Object, KV{"0sib", g.pendingSib})
+		}
+		g.pendingSib = nil
+	}
 	if r.Chance(0.06) && !used["big"] {
 		used["big"] = true
 		d.Object = append(d.Object, KV{"big", &GDecl{Const: sp(bigInts[r.Pick(len(bigInts))]), Type: sp(r.PickStr("int", "int", "string")), Keep: r.Chance(0.3)}})
@@ -799,7 +845,7 @@ func (g *gen) schema() (Decls, string) {
 	r := g.r
 	ds := Decls{}
 	g.tmplNames, g.tmplXPath, g.tmplUse, g.tmplKind = nil, map[string]bool{}, map[string]int{}, map[string]string{}
-	g.twins, g.tmplRefs, g.bigArrays, g.upwards, g.weird = 0, 0, 0, 0, 0
+	g.twins, g.tmplRefs, g.bigArrays, g.upwards, g.weird, g.dynArrays, g.pendingSib = 0, 0, 0, 0, 0, 0, nil
 	nt := r.Pick(4)
 	// templates are generated last-to-first so that t_i only references t_j with j > i
 	var names []string
@@ -843,6 +889,21 @@ func (g *gen) schema() (Decls, string) {
 		if r.Chance(0.2) {
 			add("up", g.upward())
 			g.upwards++
+		}
+		if r.Chance(0.15) {
+			// F28 shape, made visible: a template reference whose xpath_dynamic is computed from
+			// the NUMBER of elements of an array below it: two elements select "." (the record),
+			// a doubled array selects ".." (its parent); half of the time the equal array is also
+			// a member evaluated before it on the same node
+			two := &GDecl{HasArray: true, Array: []*GDecl{{Const: sp("x")}, {Const: sp("y")}}}
+			ds["tdyn"] = &GDecl{HasObject: true, Object: []KV{{"v", &GDecl{XPath: sp("@id")}}, {"w", &GDecl{Const: sp("k")}}}}
+			add("dynref", &GDecl{Template: sp("tdyn"), XDyn: &GDecl{Func: &GFunc{Name: "verif_pick", Args: []*GDecl{
+				{Func: &GFunc{Name: "verif_len", Args: []*GDecl{{Func: &GFunc{Name: "verif_join", Args: []*GDecl{{Const: sp("")}, two}}}}}},
+				{Const: sp("a")}, {Const: sp("b")}, {Const: sp(".")}, {Const: sp("c")}, {Const: sp("..")}}}}})
+			if r.Chance(0.5) {
+				add("0sib", two)
+			}
+			g.dynArrays++
 		}
 		if r.Chance(0.15) {
 			add(weirdKeys[r.Pick(len(weirdKeys))], g.namesObject(2))
